@@ -188,13 +188,15 @@ func runC13(c *vk.Ctx) {
 		if kind == 3 && r.Intn(2) == 0 {
 			// the owner of the base goes on computing with it in place, then somebody asks for a logarithm to the base
 			// it has become (with that object or with a fresh equal one)
-			bObj := mkBD(baseI)
+			// (the object starts from a base no earlier call has used, so that it is this object the call sees first)
+			b0 := new(big.Int).Add(baseI, new(big.Int).Mul(big.NewInt(1+r.I64n(1_000_000_000)), pow10(27)))
+			bObj := mkBD(b0)
 			var again osmomath.BigDec
 			recB, _ := vk.Guard(func() { x.CustomBaseLog(bObj) })
-			if recB == nil {
+			if d := new(big.Int).Sub(b0, e36); recB == nil && d.Abs(d).Cmp(pow10(6)) >= 0 {
 				nb := new(big.Int).Add(new(big.Int).Mul(baseI, big.NewInt(2+r.I64n(7))), big.NewInt(r.I64n(1000)))
 				if d := new(big.Int).Sub(nb, e36); d.Abs(d).Cmp(pow10(6)) >= 0 && nb.BitLen() <= 1024 {
-					bObj.MulMut(mkBD(new(big.Int).Quo(new(big.Int).Mul(nb, e36), baseI))) // roughly nb; whatever it is now is the base
+					bObj.MulMut(mkBD(new(big.Int).Quo(new(big.Int).Mul(nb, e36), b0))) // roughly nb; whatever it is now is the base
 					nbNow := bObj.BigInt()
 					if d := new(big.Int).Sub(nbNow, e36); d.Abs(d).Cmp(pow10(6)) >= 0 {
 						arg := bObj
@@ -209,7 +211,7 @@ func runC13(c *vk.Ctx) {
 							t2.Quo(t2, bfAbs(lb2))
 							t2.Add(t2, bfScaled(big.NewInt(2), 36))
 							if d2 := bfAbs(bfNew().Sub(bfScaled(again.BigInt(), 36), want2)); d2.Cmp(t2) > 0 {
-								c.Violate("C13.log_error", map[string]any{"fn": "CustomBaseLog", "base_object_reused": true}, "CustomBaseLog(%s/1e36, base %s/1e36) = %s after an earlier call with a base object that has since been changed in place (it was %s/1e36), reference %s", xi, nbNow, again, baseI, want2.Text('f', 40))
+								c.Violate("C13.log_error", map[string]any{"fn": "CustomBaseLog", "base_object_reused": true}, "CustomBaseLog(%s/1e36, base %s/1e36) = %s after an earlier call with a base object that has since been changed in place (it was %s/1e36), reference %s", xi, nbNow, again, b0, want2.Text('f', 40))
 								return
 							}
 							c.Class("log|CustomBaseLog|base-object-reused")
